@@ -86,6 +86,16 @@ class Approx:
     used = False
 
 
+class SymInt(Poly):
+    """An integer extent that is symbolic in arithmetic (a polynomial
+    symbol) but has a representative concrete value for loop unrolling."""
+    __slots__ = ("value",)
+
+    def __init__(self, name: str, value: int):
+        super().__init__({((name, 1),): Fraction(1)})
+        self.value = value
+
+
 class Arr:
     """Dense array of scalars (nested lists).  Axes over points/cells are
     never materialised: a 'point-shaped' array is a scalar here."""
@@ -529,6 +539,10 @@ class Interp:
             it = self.eval(st.iter, env, module)
             if isinstance(it, Arr):
                 it = [it[k] for k in range(it.shape[0])]
+            if isinstance(it, dict):
+                it = list(it)
+            if hasattr(it, "skv_iter"):
+                it = it.skv_iter()
             if not isinstance(it, (list, tuple, range)):
                 raise Unsupported("loop over non-concrete iterable", st)
             for v in it:
@@ -556,6 +570,9 @@ class Interp:
             return
         if isinstance(st, ast.Raise):
             raise Raised(src(st))
+        if isinstance(st, ast.FunctionDef):
+            env[st.name] = Closure(st, env, module)
+            return
         if isinstance(st, ast.Pass):
             return
         if isinstance(st, ast.Assert):
@@ -589,7 +606,7 @@ class Interp:
             else:
                 raise Unsupported("unpacking a non-sequence", t)
             if len(vals) != len(t.elts):
-                raise Unsupported("unpack arity mismatch", t)
+                raise Raised("ValueError: unpack arity mismatch")
             for e, x in zip(t.elts, vals):
                 self.assign(e, x, env, module)
             return
@@ -652,6 +669,8 @@ class Interp:
         if isinstance(e, ast.UnaryOp):
             v = self.eval(e.operand, env, module)
             if isinstance(e.op, ast.USub):
+                if hasattr(v, "skv_neg"):
+                    return v.skv_neg()
                 if isinstance(v, Arr):
                     return v.map(lambda x: -x)
                 if is_scalar(v):
@@ -667,8 +686,16 @@ class Interp:
         if isinstance(e, ast.List):
             return list(self._elts(e.elts, env, module))
         if isinstance(e, ast.Dict):
-            return {self.eval(k, env, module): self.eval(v, env, module)
-                    for k, v in zip(e.keys, e.values)}
+            out = {}
+            for k, v in zip(e.keys, e.values):
+                if k is None:
+                    d = self.eval(v, env, module)
+                    if not isinstance(d, dict):
+                        raise Unsupported("** of a non-dict", e)
+                    out.update(d)
+                else:
+                    out[self.eval(k, env, module)] = self.eval(v, env, module)
+            return out
         if isinstance(e, ast.Compare):
             left = self.eval(e.left, env, module)
             for op, r in zip(e.ops, e.comparators):
@@ -704,9 +731,15 @@ class Interp:
         if isinstance(e, ast.Call):
             return self.eval_call(e, env, module)
         if isinstance(e, ast.Lambda):
-            return Lam(e, dict(env), module)
+            return Lam(e, env, module)
         if isinstance(e, ast.ListComp) or isinstance(e, ast.GeneratorExp):
             return self.comprehension(e, env, module)
+        if isinstance(e, ast.DictComp):
+            pairs = self.comprehension(
+                ast.ListComp(elt=ast.Tuple(elts=[e.key, e.value],
+                                           ctx=ast.Load()),
+                             generators=e.generators), env, module)
+            return dict(pairs)
         if isinstance(e, ast.JoinedStr):
             return Opaque("fstring")
         if isinstance(e, ast.Starred):
@@ -720,18 +753,26 @@ class Interp:
                 v = self.eval(x.value, env, module)
                 if isinstance(v, Arr):
                     v = [v[k] for k in range(v.shape[0])]
+                if hasattr(v, "skv_iter"):
+                    v = v.skv_iter()
                 out.extend(v)
             else:
                 out.append(self.eval(x, env, module))
         return out
 
-    def comprehension(self, e, env, module):
-        if len(e.generators) != 1 or e.generators[0].is_async:
-            raise Unsupported("nested comprehension", e)
+    def comprehension(self, e, env, module, _gi=0, _loc=None):
+        if any(g.is_async for g in e.generators):
+            raise Unsupported("async comprehension", e)
+        if len(e.generators) > 1:
+            return self._multi_comp(e, env, module)
         g = e.generators[0]
         it = self.eval(g.iter, env, module)
         if isinstance(it, Arr):
             it = [it[k] for k in range(it.shape[0])]
+        if isinstance(it, dict):
+            it = list(it)
+        if hasattr(it, "skv_iter"):
+            it = it.skv_iter()
         if not isinstance(it, (list, tuple, range)):
             raise Unsupported("comprehension over non-concrete iterable", e)
         out = []
@@ -740,6 +781,33 @@ class Interp:
             self.assign(g.target, v, loc, module)
             if all(self.truth(self.eval(c, loc, module), c) for c in g.ifs):
                 out.append(self.eval(e.elt, loc, module))
+        return out
+
+    def _multi_comp(self, e, env, module):
+        out = []
+
+        def rec(k, loc):
+            if k == len(e.generators):
+                out.append(self.eval(e.elt, loc, module))
+                return
+            g = e.generators[k]
+            it = self.eval(g.iter, loc, module)
+            if isinstance(it, Arr):
+                it = [it[i] for i in range(it.shape[0])]
+            if isinstance(it, dict):
+                it = list(it)
+            if hasattr(it, "skv_iter"):
+                it = it.skv_iter()
+            if not isinstance(it, (list, tuple, range)):
+                raise Unsupported("comprehension over non-concrete "
+                                  "iterable", e)
+            for v in it:
+                l2 = dict(loc)
+                self.assign(g.target, v, l2, module)
+                if all(self.truth(self.eval(c, l2, module), c)
+                       for c in g.ifs):
+                    rec(k + 1, l2)
+        rec(0, dict(env))
         return out
 
     def compare(self, op, a, b, node):
@@ -817,7 +885,9 @@ class Interp:
         if r is None:
             if name in ("range", "len", "int", "float", "abs", "tuple",
                         "list", "enumerate", "zip", "sum", "max", "min",
-                        "isinstance", "hasattr", "str", "super"):
+                        "isinstance", "hasattr", "str", "super", "slice",
+                        "dict", "set", "sorted", "reversed", "bool",
+                        "getattr"):
                 return Builtin(name)
             if name in ("True", "False", "None"):
                 return {"True": True, "False": False, "None": None}[name]
@@ -923,11 +993,19 @@ class Interp:
         if isinstance(f, Lam):
             a = f.node.args
             names = [x.arg for x in a.args]
-            loc = dict(f.env)
+            loc = _ChainEnv(f.env)
             if len(args) != len(names):
                 raise Unsupported("lambda arity", node)
             loc.update(zip(names, args))
             return self.eval(f.node.body, loc, f.module)
+        if isinstance(f, Closure):
+            a = f.node.args
+            names = [x.arg for x in a.args]
+            if len(args) != len(names) or kwargs:
+                raise Unsupported("closure call arity", node)
+            loc = _ChainEnv(f.env)
+            loc.update(zip(names, args))
+            return self.run_body(f.node.body, loc, f.module)
         if isinstance(f, ModRef):
             return self.external(f.name, args, kwargs, node)
         if isinstance(f, PyFunc):
@@ -947,6 +1025,8 @@ class Interp:
         if n == "range":
             ints = []
             for a in args:
+                if isinstance(a, SymInt):
+                    a = a.value
                 if isinstance(a, Fraction) and a.denominator == 1:
                     a = int(a)
                 if not isinstance(a, int):
@@ -1020,6 +1100,23 @@ class Interp:
             raise Unsupported("hasattr on non-object", node)
         if n == "str":
             return str(args[0])
+        if n == "slice":
+            return slice(*args)
+        if n == "getattr":
+            try:
+                return self.getattr(args[0], args[1], node, None)
+            except Unsupported:
+                if len(args) > 2:
+                    return args[2]
+                raise
+        if n == "dict":
+            d = dict(args[0]) if args else {}
+            d.update(kwargs)
+            return d
+        if n == "sorted":
+            return sorted(args[0])
+        if n == "bool":
+            return self.truth(args[0], node)
         if n == "arr.flatten" or n == "arr.copy" or n == "arr.astype":
             o = f.obj
             if n == "arr.flatten" and isinstance(o, Arr):
@@ -1261,6 +1358,30 @@ def to_arr(v):
     if is_scalar(v):
         return v
     raise Unsupported(f"np.array of {type(v).__name__}")
+
+
+class Closure:
+    def __init__(self, node, env, module):
+        self.node, self.env, self.module = node, env, module
+
+
+class _ChainEnv(dict):
+    """locals of a nested function; reads fall through to the enclosing
+    environment (late binding, like Python closures)."""
+    def __init__(self, outer):
+        super().__init__()
+        self.outer = outer
+
+    def __contains__(self, k):
+        return dict.__contains__(self, k) or k in self.outer
+
+    def __getitem__(self, k):
+        if dict.__contains__(self, k):
+            return dict.__getitem__(self, k)
+        return self.outer[k]
+
+    def get(self, k, d=None):
+        return self[k] if k in self else d
 
 
 class PyFunc:
